@@ -298,8 +298,9 @@ def value_cases(body, sym, bi, rv):
             if len(defs) >= 2 and all(d[2].get("k") != "partial" for d in defs) and l not in body.mut_borrowed_locals():
                 # assigned once per path: no definition can be followed by another one
                 blocks = [d[0] for d in defs]
+                # (on the way to this use: inside a loop every definition reaches the others again, but only through the use)
                 once = len(set(blocks)) == len(blocks) and not any(
-                    o in body.reachable_from(d) for d in blocks for o in blocks)
+                    o in body.reachable_from(d, removed={bi}) for d in blocks for o in blocks)
                 if once:
                     out = []
                     for (db, di, drv) in defs:
@@ -455,6 +456,15 @@ def constraints_for(ix, body, sym, block, _depth=0):
             truth = next(iter(vals)) == e[1].endswith("is_some")
             e = ("discr", mir.strip_refs(e[2][0]))
             vals = ["Some" if truth else "None"]
+        # a variant test on a value merged from several arms, all but one of which build a variant that fails the test
+        # (`a.and_then(|()| b).is_ok()` after expansion is `match a { Ok(()) => b, Err(x) => Err(x) }.is_ok()`): passing it
+        # means the remaining arm was taken and its value passes the test
+        mg = _merged_variant_test(ix, body, sym, d, e, vals, _depth)
+        if mg is not None:
+            for c in mg:
+                if not any(c[0] == o[0] and c[1] == o[1] for o in out):
+                    out.append(c)
+            continue
         # discr(c.opposite()) in {White} is discr(c) in {Black} (Color::opposite's table is decided by C04)
         if e[0] == "discr":
             inner = mir.strip_copies(e[1])
@@ -468,6 +478,46 @@ def constraints_for(ix, body, sym, block, _depth=0):
         dq = _eq_as_discr(ix, e, vals)
         if dq is not None and not any(o[0] == mir.expr_str(dq[0]) and o[1] == dq[1] for o in out):
             out.append((mir.expr_str(dq[0]), dq[1], d, dq[0]))
+    return out
+
+
+_VARIANT_TESTS = {"std::result::Result::is_ok": "Ok", "std::result::Result::is_err": "Err",
+                  "std::option::Option::is_some": "Some", "std::option::Option::is_none": "None"}
+
+
+def _merged_variant_test(ix, body, sym, d, e, vals, depth):
+    if depth >= 4 or e[0] != "call" or e[1] not in _VARIANT_TESTS or len(e[2]) != 1:
+        return None
+    if not vals or not all(isinstance(v, bool) for v in vals) or len(set(vals)) != 1:
+        return None
+    truth = next(iter(vals))
+    inner = mir.strip_refs(e[2][0])
+    if inner[0] != "var" or not isinstance(inner[1], str) or not inner[1].startswith("_"):
+        return None
+    try:
+        l = int(inner[1][1:])
+    except ValueError:
+        return None
+    if l in body.names or l <= body.arg_count:
+        return None
+    cases = value_cases(body, sym, d, {"k": "use", "a": {"copy": {"l": l, "p": [], "ty": "?"}}})
+    if len(cases) < 2:
+        return None
+    want = _VARIANT_TESTS[e[1]]
+    live = []
+    for db, v in cases:
+        v2 = mir.strip_copies(v)
+        if v2[0] == "agg" and v2[2] is not None:
+            if (v2[2] == want) == truth:
+                live.append((db, v, True))   # passes the test by construction
+            continue
+        live.append((db, v, False))
+    if len(live) != 1 or live[0][2]:
+        return None
+    db, v, _ = live[0]
+    out = list(constraints_for(ix, body, sym, db, depth + 1))
+    te = ("call", e[1], (("ref", v),))
+    out.append((mir.expr_str(te), frozenset([truth]), d, te))
     return out
 
 
